@@ -10,6 +10,7 @@ import SwcVerif.Model.Asc
 import SwcVerif.Model.Redirect
 import SwcVerif.Model.Population
 import SwcVerif.Model.Resample
+import SwcVerif.Model.Mst
 
 def dispatch (op : String) (args : List String) : String :=
   match op with
@@ -30,6 +31,7 @@ def dispatch (op : String) (args : List String) : String :=
   | "lazy" => Pop.handleLazy args
   | "chain" => Pop.handleChain args
   | "iso" | "lin" | "smooth" => Resample.handle op args
+  | "mst" => Mst.handle args
   | "swcline" => SwcText.handleLine args
   | "swcread" => SwcText.handleRead args
   | "swcwrite" => SwcText.handleWrite args
